@@ -144,6 +144,7 @@ pub fn test_ord(c: &OrdCase, ctx: &mut CaseCtx) -> Result<(), String> {
 fn frame() -> BoxedStrategy<(String, String)> {
     prop_oneof![
         4 => Just(("The ".to_string(), " item.".to_string())),
+        2 => (g::sel_str(&["The ", "She finished ", "Open on the ", "THE "]), g::sel_str(&[" 10 rows are wrong.", " 3 times in a row.", " 13 and 14 of May.", " 5 ENTRIES", " 7lb of flour", " 2.5 kg"])).prop_map(|(a, b)| (a, b)),
         2 => Just((String::new(), String::new())),
         1 => Just((String::new(), " of May".to_string())),
         1 => Just(("On the ".to_string(), String::new())),
@@ -155,7 +156,7 @@ fn frame() -> BoxedStrategy<(String, String)> {
         // joined to a word by a hyphen; other numbers and suffix-like words earlier in the sentence
         3 => (g::sel_str(&["mid-", "top-", "pre-", "a sub-", "-", "the post-", "x-", "1st-", "3-"]), g::sel_str(&["", " item.", " century", "-", "-9th"]))
             .prop_map(|(a, b)| (a, b)),
-        3 => (g::sel_str(&["At 21 St Marks Place the ", "See 101 St Johns Road, then the ", "the 4 th and the ", "The 1st, the 22nd and the ", "In 1990s terms the ", "Take 5 then ", "No. 7 nd "]), g::sel_str(&["", " floor.", " x", "."]))
+        3 => (g::sel_str(&["At 21 St Marks Place the ", "See 101 St Johns Road, then the ", "the 4 th and the ", "The 1st, the 22nd and the ", "In 1990s terms the ", "Take 5 then ", "No. 7 nd "]), g::sel_str(&["", " floor.", " x", ".", " 10 rows are wrong.", " 3 times in a row.", " 13 and 14 of May.", " 7lb", " 100 times"]))
             .prop_map(|(a, b)| (a, b)),
         3 => (proptest::collection::vec(g::plain_word(), 1..6), g::sel_str(&[" ", ", ", " - ", "; ", ": ", "\n", "\t"]), proptest::collection::vec(g::plain_word(), 0..3))
             .prop_map(|(a, sep, b)| (format!("{}{sep}", a.join(" ")), if b.is_empty() { String::new() } else { format!(" {}", b.join(" ")) })),
